@@ -29,6 +29,9 @@ From PV Require Import Base.Num Base.FVal Base.Tape Model.Operators.
 Import ListNotations.
 Open Scope res_scope.
 
+(* the least exact value that rounds to inf in binary64 *)
+Definition FLOAT_OVERFLOW : Q := inject_Z (2 ^ 1024 - 2 ^ 970).
+
 (* sys.float_info.epsilon = 2^-52 *)
 Definition EPSILON : Q := 1 # (2 ^ 52).
 
@@ -150,9 +153,27 @@ Section RealOps.
       pe <- eff_prob pr (count_real types) ;;
       mutation_of E P (pm_step pe) types fresh p t.
 
-  (* ================================================================ UM 435-454 *)
+  (* ================================================================ UM 435-460 (repaired, fix f6dc0d6) *)
   (* the loop tests `<= self.probability` (the RAW parameter; the divided local is unused);
-     um_mutation returns random.uniform(lb, ub) — written WITHOUT clip *)
+     um_mutation(x, lb, ub):
+         if math.isinf(ub - lb):            -- the width overflows for very wide (finite) bounds
+             r = random.random(); return lb * (1.0 - r) + ub * r
+         return random.uniform(lb, ub)
+     the result is written WITHOUT clip.
+     ub - lb rounds to inf exactly when the exact difference is >= 2^1024 - 2^970 (MAX + half an ulp;
+     the tie goes to the even neighbour 2^1024).  The interpolation is modelled over exact Q (the
+     driver keeps only calls on which the float expression is exact). *)
+  Definition um_value (lb ub : xq) (t : tape) : res (fval * tape) :=
+    match lb, ub with
+    | Fin a, Fin b =>
+        if Qle_bool FLOAT_OVERFLOW (b - a) then
+          '(r, t') <- get_rand t ;;
+          Ok (FX (Fin (Qred (a * (1 - r) + b * r))), t')
+        else
+          '(q, t') <- get_unif_in lb ub t ;; Ok (FX q, t')
+    | _, _ => Err EType                    (* infinite bounds: outside the modelled domain *)
+    end.
+
   Definition um_step (praw : xq) : mstep := fun ty v t =>
     match ty with
     | TReal lb ub =>
@@ -160,8 +181,8 @@ Section RealOps.
         if xleb u praw then
           match v with
           | VReal _ =>
-              '(q, t2) <- get_unif_in lb ub t1 ;;
-              Ok (Some (VReal (FX q)), t2)
+              '(x, t2) <- um_value lb ub t1 ;;
+              Ok (Some (VReal x), t2)
           | _ => Err EType
           end
         else Ok (None, t1)
